@@ -97,6 +97,7 @@ class Interp:
         self.side = {}             # scratch for models (e.g. table events)
         self._promoted = {}
         self.vn = {}
+        self.entry_snap = {}
 
     # ------------------------------------------------------------------ infrastructure
     def cfg(self, body):
@@ -355,7 +356,7 @@ class Interp:
                 aff = Aff(c, t)
                 ch = True
             if ch:
-                return IntV(v.ty, bits, lo, hi, aff, v.deps, v.sid, v.term)
+                return IntV(v.ty, bits, lo, hi, aff, v.deps, v.sid, v.term, v.vset)
             return v
         if isinstance(v, BoolV) and v.val is None and v.bit is not None and state.kb and v.bit != TBIT and not bit_is_const(v.bit):
             b = v.bit
@@ -766,7 +767,20 @@ class Interp:
                 info = self.facts.adts.get(adt)
                 is_enum = (info and info["kind"] == "enum") or adt in STD_ENUMS
                 if is_enum:
-                    return EnumV(adt, {rv["variant"]: (tuple(vals), {})})
+                    # facts learnt since the function was entered hold whenever THIS construction is the one observed
+                    g = {}
+                    snap = self.entry_snap.get(fid)
+                    if snap is not None:
+                        dk = {b: v for b, v in state.kb.items() if snap[0].get(b) != v}
+                        if dk:
+                            g["kb"] = dk
+                        dc = {k: v for k, v in state.cons.items() if snap[1].get(k) != v}
+                        if dc:
+                            g["cons"] = dc
+                        dp = state.pc - snap[2]
+                        if dp:
+                            g["pc"] = dp
+                    return EnumV(adt, {rv["variant"]: (tuple(vals), g)})
                 if adt.endswith("RangeInclusive") or adt.endswith("ops::Range"):
                     return StructV(adt, dict(zip(rv["fields"], vals)))
                 return StructV(adt, dict(zip(rv["fields"], vals)))
@@ -906,6 +920,8 @@ class Interp:
         state.stack.append(fid)
         saved_ctl = state.ctl
         state.ctl = frozenset()
+        entry_kb, entry_cons, entry_pc = dict(state.kb), dict(state.cons), state.pc
+        self.entry_snap[fid] = (entry_kb, entry_cons, entry_pc)
         for i, a in enumerate(args):
             state.fr[fid][i + 1] = a
         work = []
@@ -929,6 +945,26 @@ class Interp:
             outs = self.exec_block(st, fid, body, bb)
             for (tgt, ost) in outs:
                 if tgt == "return":
+                    rv0 = ost.fr[fid].get(0)
+                    if isinstance(rv0, EnumV) and len(rv0.variants) == 1:
+                        # remember under which facts THIS path produced its variant (restored when the caller matches on it)
+                        n0, (pl0, g0) = list(rv0.variants.items())[0]
+                        g = dict(g0)
+                        dk = {b: v for b, v in ost.kb.items() if entry_kb.get(b) != v}
+                        if dk:
+                            kk = dict(g.get("kb", {}))
+                            kk.update(dk)
+                            g["kb"] = kk
+                        dc = {k: v for k, v in ost.cons.items() if entry_cons.get(k) != v}
+                        if dc:
+                            cc = dict(g.get("cons", {}))
+                            cc.update(dc)
+                            g["cons"] = cc
+                        dp = ost.pc - entry_pc
+                        if dp:
+                            g["pc"] = frozenset(g.get("pc", frozenset())) | dp
+                        if g != g0:
+                            ost.fr[fid][0] = EnumV(rv0.adt, {n0: (pl0, g)})
                     if ret_state is None:
                         ret_state = ost
                     else:
@@ -1067,8 +1103,11 @@ class Interp:
                         return [(b, state)]
                 return [(t["otherwise"], state)]
             state.ctl = state.ctl | d.deps
+            dvals = d.values()
             for v, b in targets:
                 if v < d.lo or v > d.hi:
+                    continue
+                if dvals is not None and v not in dvals:
                     continue
                 st = state.copy()
                 bv = ops.compare("Eq", d, IntV.const(d.ty, v))
@@ -1086,6 +1125,8 @@ class Interp:
             feas = True
             tv = {v for v, _ in targets}
             if d.hi - d.lo < 4096 and all(x in tv for x in range(d.lo, d.hi + 1)):
+                feas = False
+            if dvals is not None and all(x in tv for x in dvals):
                 feas = False
             if feas and d.term and d.term[0] == "discr" and d.term[3] is not None and all(i in tv for i in d.term[3]):
                 feas = False
@@ -1158,6 +1199,8 @@ class Interp:
                         # bit value on this edge
                         val = cond_true == bit_true
                         state.guard = (nz[0], val)
+        if b.val is not None:
+            return
         term = b.term
         if term is None and o is not None and o[0] in ("cmp", "fcmp"):
             term = (o[1], _vterm(o[2]), _vterm(o[3]))
@@ -1349,9 +1392,10 @@ def _vterm(v):
         if v.term is not None:
             return v.term
         a = v.affine()
+        fd = tuple(sorted(d for d in v.deps if isinstance(d, int)))
         if a is not None:
-            return ("aff", a.show())
-        return ("int", tuple(sorted(v.deps, key=str)))
+            return ("aff", a.show(), fd)
+        return ("int?", tuple(sorted(v.deps, key=str)), fd)
     if isinstance(v, FloatV):
         if v.is_const():
             return v.lo
